@@ -27,12 +27,54 @@ def gen_with(rng, pred, **force) -> Dict[str, Any]:
     raise RuntimeError("generator could not satisfy the predicate")
 
 
+PRE_CALLS = ["temporal_breakdown", "kernel_breakdown", "idle_time", "comm_comp_overlap", "queue_length_series", "queue_length_summary",
+             "memory_bw_series", "memory_bw_summary", "launch_stats", "launch_stats_mem", "call_graph", "user_annotation_breakdown"]
+
+
+def disturb(ta, pre) -> None:
+    """Run other public analyses on the same TraceAnalysis object first (the case's `pre` list). Their results and
+    their failures are ignored: the point is only that they ran, on the same loaded frames and symbol table."""
+    import contextlib
+    import io
+    for name in pre or []:
+        try:
+            with contextlib.redirect_stdout(io.StringIO()):
+                if name == "temporal_breakdown":
+                    ta.get_temporal_breakdown(visualize=False)
+                elif name == "kernel_breakdown":
+                    ta.get_gpu_kernel_breakdown(visualize=False, num_kernels=3)
+                elif name == "idle_time":
+                    ta.get_idle_time_breakdown(visualize=False, ranks=ta.t.get_ranks()[:1])
+                elif name == "comm_comp_overlap":
+                    ta.get_comm_comp_overlap(visualize=False)
+                elif name == "queue_length_series":
+                    ta.get_queue_length_time_series()
+                elif name == "queue_length_summary":
+                    ta.get_queue_length_summary()
+                elif name == "memory_bw_series":
+                    ta.get_memory_bw_time_series()
+                elif name == "memory_bw_summary":
+                    ta.get_memory_bw_summary()
+                elif name == "launch_stats":
+                    ta.get_cuda_kernel_launch_stats(visualize=False)
+                elif name == "launch_stats_mem":
+                    ta.get_cuda_kernel_launch_stats(visualize=False, include_memory_events=True)
+                elif name == "call_graph":
+                    from hta.common.trace_call_graph import CallGraph
+                    CallGraph(ta.t, ranks=ta.t.get_ranks()[:1])
+                elif name == "user_annotation_breakdown":
+                    ta.get_gpu_user_annotation_breakdown(visualize=False)
+        except Exception:  # noqa: BLE001
+            pass
+
+
 def load_case(case: Dict[str, Any], **kw):
     files = htaio.write_case(case, gz=kw.pop("gz", False))
     try:
         ta = htaio.load(files, **kw)
     finally:
         pass
+    disturb(ta, case.get("pre"))
     return ta, files
 
 
